@@ -132,6 +132,14 @@ pub fn check_html(html: &str, html_noids: Option<&str>, width: usize, rich: bool
             st.class("id_without_visible_text(tolerated)");
             continue;
         }
+        // KF-C03-starved-cell: a cell whose text is dropped by the layout cannot show its marker either
+        if exclude_known {
+            let in_starved_table = std::iter::once(e).chain(dom.ancestors(e)).any(|a| dom.name(a) == Some("table") && crate::tablegeo::geometry_of_dom(&dom, a).has_starved_risk());
+            if in_starved_table {
+                st.exclude("KF-C03-starved-cell");
+                continue;
+            }
+        }
         if matches!(dom.name(e), Some("table" | "thead" | "tbody" | "tfoot" | "tr")) && !first_cell_has_text(&dom, e) {
             if exclude_known {
                 st.exclude("KF-C14-first-cell-empty");
